@@ -112,7 +112,7 @@ static std::string schedule_text(const Model& M, int restart_n) {
     // ---- block 0
     s += "GRUPTREE\n 'G1' 'FIELD' /\n 'G2' 'FIELD' /\n 'G3' 'G2' /\n/\n";
     s += std::string("WELSPECS\n 'P1' 'G1' 1 1 2005 OIL /\n 'P2' 'G1' 2 1 1* OIL /\n 'P3' 'G1' 3 1 1* OIL /\n 'I1' 'G3' 3 3 2010 ") + (d[D_INJ] == 1 ? "GAS" : "WATER") + " /\n/\n";
-    s += "COMPDAT\n 'P1' 1 1 1 3 OPEN 1* 1* 0.2 /\n 'P2' 2 1 1 2 OPEN 1* 1* 0.2 /\n 'P3' 3 1 1 1 OPEN 1* 12.5 0.25 /\n 'I1' 3 3 1 2 OPEN 1* 25.0 0.2 3* Z /\n/\n";
+    s += "COMPDAT\n 'P1' 1 1 1 3 OPEN 1* 1* 0.2 /\n 'P2' 2 1 1 2 OPEN 1* 1* 0.2 /\n 'P3' 3 1 1 2 OPEN 1* 12.5 0.25 /\n 'I1' 3 3 1 2 OPEN 1* 25.0 0.2 3* Z /\n/\n";
     if (d[D_MSW] == 0) s += "WELSEGS\n 'P2' 2005 0 1* INC HF- /\n 2 2 1 1 10 10 0.2 0.0001 /\n 3 3 2 2 10 5 0.15 0.0002 /\n/\nCOMPSEGS\n 'P2' /\n 2 1 1 1 0 10 /\n 2 1 2 2 10 20 /\n/\n";
     if (d[D_HIST] == 0) s += "WCONHIST\n 'P1' OPEN ORAT 90 10 1000 /\n 'P2' OPEN ORAT 80 20 2000 /\n/\n";
     else s += "WCONPROD\n 'P1' OPEN ORAT 90 4* 40 /\n 'P2' OPEN ORAT 80 4* 45 /\n/\n";
@@ -226,6 +226,9 @@ static data::Wells make_wells(const Schedule& sched, const Model& M, int k) {
             dc.index = c.global_index();
             const bool copen = flows && c.state() == Connection::State::OPEN;
             for (int q = 0; q < 6; ++q) dc.rates.set(opts[q], copen ? phase_rate(q, ci + 1, 0.25) : 0.0);
+            // a STOPped well is shut at the surface but its open connections cross-flow (in through one, out through the next)
+            if (status == Well::Status::STOP && c.state() == Connection::State::OPEN)
+                for (int q = 0; q < 6; ++q) dc.rates.set(opts[q], (ci % 2 ? 1.0 : -1.0) * 0.015625 * fp(q, wi, ci + 1, k, dyn));
             dc.pressure = fp(Q_CPR, wi, ci + 1, k, dyn);
             dc.reservoir_rate = copen ? dc.rates.get(O::reservoir_oil) + dc.rates.get(O::reservoir_water) + dc.rates.get(O::reservoir_gas) : 0.0;
             dc.cell_pressure = dc.pressure * 1.03125; dc.cell_saturation_water = 0.25; dc.cell_saturation_gas = 0.125;
@@ -309,9 +312,14 @@ static bool close_rel(double a, double b, double rel, double abs_slack = 0.0) {
     if (std::isnan(a) || std::isnan(b) || std::isinf(a) || std::isinf(b)) return false;
     return std::fabs(a - b) <= rel * std::max(std::fabs(a), std::fabs(b)) + abs_slack;
 }
-static const double TOL_DBL = 1.0e-14;      // DOUB data that passed a from_si/to_si pair (a few roundings)
-static const double TOL_SEG = 1.0e-12;      // segment phase rates are rebuilt from total flow and two fractions
-static const double TOL_REAL = 1.2e-7;      // REAL data: one rounding to 24 bits on the way
+// tolerances of the current case (a FORMATTED file prints DOUB with 14 and REAL with 8 significant digits)
+static double TOL_SAME = 0.0;        // DOUB/INTE data that is not converted: identical (unformatted) / printed precision (formatted)
+static double TOL_DBL = 1.0e-14;     // DOUB data that passed a from_si/to_si pair (a few roundings)
+static double TOL_SEG = 1.0e-12;     // segment phase rates are rebuilt from total flow and two fractions
+static double TOL_REAL = 1.2e-7;     // REAL data: one rounding to 24 bits on the way
+static void set_tolerances(bool formatted) {
+    TOL_SAME = formatted ? 1.0e-13 : 0.0; TOL_DBL = formatted ? 1.0e-13 : 1.0e-14; TOL_SEG = 1.0e-12; TOL_REAL = formatted ? 2.5e-7 : 1.2e-7;
+}
 
 static void cmp_num(Outcome& o, const std::string& id, const std::string& where, double saved, double loaded, double rel, double abs_slack = 0.0) {
     ++o.compared; o.obs = vf::fnv(&loaded, 8, o.obs);
@@ -324,6 +332,7 @@ static Outcome run_case(const Case& c) {
     const Model& M = c.m;
     const int n = c.n;
     std::string stage = "setup";
+    set_tolerances(c.fmt != 0);
     for (const auto& e : fs::directory_iterator(".")) { std::error_code ec; fs::remove_all(e.path(), ec); }
     std::unique_ptr<Schedule> sched, rsched;
     try {
@@ -410,7 +419,7 @@ static Outcome run_case(const Case& c) {
             const double slack = (!c.dbl && a.m == UnitSystem::measure::temperature) ? TOL_REAL * 500.0 : 0.0;
             for (int i = 0; i < (int)v.size(); ++i) {
                 const double want = arr_value(a, i, n);
-                if (c.dbl && ident) { ++o.compared; o.obs = vf::fnv(&v[i], 8, o.obs); if (v[i] != want) fail(o, id, "cell " + std::to_string(i) + ": saved " + vf::fmt17(want) + " loaded " + vf::fmt17(v[i]) + " (DOUB, no conversion: must be identical)"); }
+                if (c.dbl && ident) cmp_num(o, id, "cell " + std::to_string(i) + " (DOUB, no conversion)", want, v[i], TOL_SAME);
                 else cmp_num(o, id, "cell " + std::to_string(i), want, v[i], c.dbl ? TOL_DBL : TOL_REAL, slack);
             }
         }
@@ -466,7 +475,7 @@ static Outcome run_case(const Case& c) {
                 if (!st.has_well_var(wn, v)) continue;
                 const double x = st.get_well_var(wn, v);
                 if (!st2.has_well_var(wn, v)) { fail(o, "dyn:total.W" + std::string(t), wn + ":" + v + " missing after load (saved " + vf::fmt17(x) + ")"); continue; }
-                cmp_num(o, "dyn:total.W" + std::string(t), wn, x, st2.get_well_var(wn, v), 0.0);
+                cmp_num(o, "dyn:total.W" + std::string(t), wn, x, st2.get_well_var(wn, v), TOL_SAME);
             }
             for (const auto& gn : sched->groupNames(n - 1)) for (const char* t : TOT) {
                 const bool field = gn == "FIELD";
@@ -477,7 +486,7 @@ static Outcome run_case(const Case& c) {
                 const bool has2 = field ? st2.has(v) : st2.has_group_var(gn, v);
                 const std::string id = std::string("dyn:total.") + (field ? "F" : "G") + t;
                 if (!has2) { fail(o, id, gn + ":" + v + " missing after load (saved " + vf::fmt17(x) + ")"); continue; }
-                cmp_num(o, id, gn, x, field ? st2.get(v) : st2.get_group_var(gn, v), 0.0);
+                cmp_num(o, id, gn, x, field ? st2.get(v) : st2.get_group_var(gn, v), TOL_SAME);
             }
         }
         // UDQ values
@@ -485,15 +494,15 @@ static Outcome run_case(const Case& c) {
             for (const char* f : {"FUX", "FUY"}) {
                 const bool h1 = udq.has(f), h2 = udq2.has(f);
                 if (h1 != h2) { fail(o, "dyn:udq.field.defined", std::string(f) + ": UDQState has it " + (h1 ? "before" : "after") + " only"); continue; }
-                if (h1) cmp_num(o, "dyn:udq.field.value", f, udq.get(f), udq2.get(f), 0.0);
-                if (st.has(f)) { if (!st2.has(f)) fail(o, "dyn:udq.field.summary", std::string(f) + " missing in the loaded SummaryState"); else cmp_num(o, "dyn:udq.field.summary", f, st.get(f), st2.get(f), 0.0); }
+                if (h1) cmp_num(o, "dyn:udq.field.value", f, udq.get(f), udq2.get(f), TOL_SAME);
+                if (st.has(f)) { if (!st2.has(f)) fail(o, "dyn:udq.field.summary", std::string(f) + " missing in the loaded SummaryState"); else cmp_num(o, "dyn:udq.field.summary", f, st.get(f), st2.get(f), TOL_SAME); }
             }
             for (const char* f : {"WUOR", "WUZ"}) for (const auto& wn : sched->wellNames(n - 1)) {
                 const bool h1 = udq.has_well_var(wn, f), h2 = udq2.has_well_var(wn, f);
                 const std::string K = std::string(f) + ":" + wn;
                 if (h1 != h2) { fail(o, "dyn:udq.well.defined", K + ": UDQState has it " + (h1 ? "before" : "after") + " only"); continue; }
-                if (h1) cmp_num(o, "dyn:udq.well.value", K, udq.get_well_var(wn, f), udq2.get_well_var(wn, f), 0.0);
-                if (st.has_well_var(wn, f)) { if (!st2.has_well_var(wn, f)) fail(o, "dyn:udq.well.summary", K + " missing in the loaded SummaryState"); else cmp_num(o, "dyn:udq.well.summary", K, st.get_well_var(wn, f), st2.get_well_var(wn, f), 0.0); }
+                if (h1) cmp_num(o, "dyn:udq.well.value", K, udq.get_well_var(wn, f), udq2.get_well_var(wn, f), TOL_SAME);
+                if (st.has_well_var(wn, f)) { if (!st2.has_well_var(wn, f)) fail(o, "dyn:udq.well.summary", K + " missing in the loaded SummaryState"); else cmp_num(o, "dyn:udq.well.summary", K, st.get_well_var(wn, f), st2.get_well_var(wn, f), TOL_SAME); }
             }
         }
         // ACTIONX run records
@@ -522,18 +531,33 @@ static Outcome run_case(const Case& c) {
             obs::sched_restart(*sched, k, st, A);
             obs::sched_restart(*rsched, k, st, B);
             const std::string when = k == (std::size_t)n ? "" : ":later";
+            // a difference already present at n persists: report it once, as the at-n defect
+            auto sfail = [&](const std::string& cls, const std::string& what) {
+                if (!when.empty()) for (auto& f : o.fails) if (f.id == "sched:" + cls) return;
+                fail(o, "sched:" + cls + when, what);
+            };
             std::map<std::string, const obs::Item*> bm; for (const auto& it : B.items) bm[it.key] = &it;
             std::set<std::string> seen;
             for (const auto& x : A.items) {
                 ++o.compared; seen.insert(x.key);
                 auto f = bm.find(x.key);
-                if (f == bm.end()) { fail(o, "sched:" + x.cls + when, "step " + std::to_string(k) + " " + x.key + ": only the original schedule answers (" + (x.num ? vf::fmt17(x.v) : x.s) + ")"); continue; }
+                if (f == bm.end()) { sfail(x.cls, "step " + std::to_string(k) + " " + x.key + ": only the original schedule answers (" + (x.num ? vf::fmt17(x.v) : x.s) + ")"); continue; }
                 const auto& y = *f->second;
-                if (x.num != y.num) { fail(o, "sched:" + x.cls + when, "step " + std::to_string(k) + " " + x.key + ": " + (x.num ? vf::fmt17(x.v) : x.s) + " vs " + (y.num ? vf::fmt17(y.v) : y.s)); continue; }
-                if (x.num) { o.obs = vf::fnv(&y.v, 8, o.obs); if (!obs::num_equal(x.v, y.v, x.p)) fail(o, "sched:" + x.cls + when, "step " + std::to_string(k) + " " + x.key + ": original " + vf::fmt17(x.v) + " restarted " + vf::fmt17(y.v)); }
-                else { o.obs = vf::fnv(y.s, o.obs); if (x.s != y.s) fail(o, "sched:" + x.cls + when, "step " + std::to_string(k) + " " + x.key + ": original [" + x.s.substr(0, 300) + "] restarted [" + y.s.substr(0, 300) + "]"); }
+                if (!x.num && !y.num && x.s != y.s && x.key.size() > 10 && x.key.compare(x.key.size() - 10, 10, "/ctl.cmode") == 0) {
+                    // The file has one slot for a well's control mode and the writer puts the ACTIVE control there: a restarted well
+                    // continues under the control it was operating on (all limits are kept, see ctl.has / ctl.*).  Accepted.
+                    const std::string wn = x.key.substr(2, x.key.size() - 12);
+                    auto wi = wells.find(wn);
+                    if (wi != wells.end() && wi->second.dynamicStatus == Well::Status::OPEN) {
+                        const int act = wi->second.current_control.isProducer ? (int)wi->second.current_control.prod : (int)wi->second.current_control.inj;
+                        if (y.s == std::to_string(act)) { R->count("requested_cmode_replaced_by_active_control"); continue; }
+                    }
+                }
+                if (x.num != y.num) { sfail(x.cls, "step " + std::to_string(k) + " " + x.key + ": " + (x.num ? vf::fmt17(x.v) : x.s) + " vs " + (y.num ? vf::fmt17(y.v) : y.s)); continue; }
+                if (x.num) { o.obs = vf::fnv(&y.v, 8, o.obs); if (!obs::num_equal(x.v, y.v, x.p, c.fmt != 0)) sfail(x.cls, "step " + std::to_string(k) + " " + x.key + ": original " + vf::fmt17(x.v) + " restarted " + vf::fmt17(y.v)); }
+                else { o.obs = vf::fnv(y.s, o.obs); if (x.s != y.s) sfail(x.cls, "step " + std::to_string(k) + " " + x.key + ": original [" + x.s.substr(0, 300) + "] restarted [" + y.s.substr(0, 300) + "]"); }
             }
-            for (const auto& y : B.items) if (!seen.count(y.key)) fail(o, "sched:" + y.cls + when, "step " + std::to_string(k) + " " + y.key + ": only the restarted schedule answers (" + (y.num ? vf::fmt17(y.v) : y.s) + ")");
+            for (const auto& y : B.items) if (!seen.count(y.key)) sfail(y.cls, "step " + std::to_string(k) + " " + y.key + ": only the restarted schedule answers (" + (y.num ? vf::fmt17(y.v) : y.s) + ")");
         }
     } catch (const std::exception& e) {
         std::string msg = e.what();
@@ -599,6 +623,10 @@ int main(int argc, char** argv) {
         "group/network dynamic values (active group control, node pressures, guide rates) are not listed in the statement: handed to the writer, not compared",
         "ACTIONX runs at report step 1; for n = 1 the action is still pending (an action triggered while report step n itself is written acts on schedule state n, which the file does not describe)",
         "same numeric deck in every unit system (a different physical model per system)",
+        "a FORMATTED restart file prints REAL with 8 and DOUB with 14 significant digits: tolerances 2.5e-7 / 1e-13 there",
+        "requested control mode of an open well: the file stores the ACTIVE control in its single slot; the restarted schedule may answer with the saved active control instead of the requested one (counted, not a violation); the set of controls and every limit/target is compared",
+        "UDQ ASSIGN definitions are compared through the defined values they give for the wells/groups existing when the assignment was entered",
+        "a STOPped well cross-flows through its connections in the handed-over state (the writer derives OPEN/STOP/SHUT from flowing connections)",
     };
 
     if (!run.replay_path.empty()) {
@@ -622,7 +650,7 @@ int main(int argc, char** argv) {
             if (run.samples.size() < 3 && us == 1 && fmt == 1 && n == 3) run.sample_str(c.str() + "  (" + m.describe() + ")");
         }
     }, budget, [&]() { return stop; });
-    run.count("models", (long long)models);
+    if (run.shard == 0) run.count("models", (long long)models);
     fs::current_path("/"); std::error_code ec; fs::remove_all(dir, ec);
     return run.finish();
 }
